@@ -1,7 +1,7 @@
 /-
 Model of the implicit integrators of `mici/integrators.py`:
-`ImplicitLeapfrogIntegrator` (lines 493-544), `ImplicitMidpointIntegrator` (lines 644-681) and
-`ConstrainedLeapfrogIntegrator` (lines 929-984).
+`ImplicitLeapfrogIntegrator` (lines 504-555), `ImplicitMidpointIntegrator` (lines 655-692) and
+`ConstrainedLeapfrogIntegrator` (lines 940-995) — line numbers as of repo commit 4c732fb.
 
 * The fixed-point solver (`solve_fixed_point_direct` / `_steffensen`, or any user supplied one) is a
   PARAMETER `solve : (V → V) → V → Res V` (`func`, `x0` ↦ result or `ConvergenceError`).  It is a
@@ -162,7 +162,7 @@ def conProject (x : V × V) : V × V := (x.1, S.proj x.1 x.2)
 /-- `_step_a`: `h1_flow` then momentum projection. -/
 def conStepA (t : K) (x : V × V) : V × V := conProject S (x.1, x.2 - t • S.dh1 x.1)
 
-/-- One inner iteration of `_step_b` (lines 954-979): retract, (pre-evaluate `dh1_dpos`: no effect
+/-- One inner iteration of `_step_b` (lines 965-990): retract, (pre-evaluate `dh1_dpos`: no effect
 on the values), project the momentum, reverse check on the positions. -/
 def conInner (ti : K) (x : V × V) : Res (V × V) := do
   let y ← conRetract S retr ti x x
